@@ -53,6 +53,9 @@ func modeOf(c *Contract) Mode {
 }
 
 func (p *Program) FindFunc(key string) *ssa.Function {
+	if at := strings.Index(key, "@"); at >= 0 {
+		key = key[:at] // instance contract "f@label" is about f
+	}
 	if fn, ok := p.Funcs[key]; ok {
 		return fn
 	}
@@ -74,6 +77,9 @@ func hasTag(tags []string, prop string) bool {
 // VerifyFunc generates all obligations for one function under contract.
 func (p *Program) VerifyFunc(c *Contract) (res *FuncResult) {
 	res = &FuncResult{Key: c.Key, Contract: c}
+	if c.Theorem != nil {
+		return p.verifyTheorem(c)
+	}
 	fn := p.FindFunc(c.Key)
 	if fn == nil {
 		res.Rejected = "function not found in SSA program: " + c.Key
@@ -141,6 +147,24 @@ func (p *Program) VerifyFunc(c *Contract) (res *FuncResult) {
 	var bind []Val
 	for _, fv := range fn.FreeVars {
 		bind = append(bind, ex.symVal(st, "fv_"+fv.Name(), fv.Type(), 0))
+	}
+	// instance contracts: parameters bound to concrete values (bind p = expr)
+	for _, b := range c.Binds {
+		idx := -1
+		for i, nm := range res.ParamNames {
+			if nm == b.Name {
+				idx = i
+			}
+		}
+		if idx < 0 {
+			res.Rejected = "bind: no parameter named " + b.Name
+			return
+		}
+		benv := &SpecEnv{ex: ex, st: st, vars: vars, vtypes: vtypes, pkg: fn.Pkg.Pkg, contract: c}
+		bv, bt := benv.eval(b.Expr)
+		bv = ex.boxIfNeeded(bv, bt, fn.Params[idx].Type())
+		args[idx] = bv
+		vars[b.Name] = bv
 	}
 	entry := st.snapshot()
 	ex.Entry = entry
@@ -268,11 +292,25 @@ func (p *Program) VerifyFunc(c *Contract) (res *FuncResult) {
 			lv := map[string]Val{}
 			lt := map[string]types.Type{}
 			var syms []string
-			for _, prm := range sf.Params {
+			var hyps []*Term
+			for pi, prm := range sf.Params {
 				nm := "lm_" + n + "_" + prm
+				syms = append(syms, nm)
+				if pi < len(sf.PTypes) && sf.PTypes[pi] != "" {
+					// typed parameter: ranges over all values of that machine type
+					if gt := basicTypeByName(sf.PTypes[pi]); gt != nil {
+						x := Sym(nm, ex.intSort(gt))
+						lv[prm] = Scalar{x}
+						lt[prm] = gt
+						if ex.Mode != ModeBV {
+							// Int encoding: the quantification is over the type's range
+							hyps = append(hyps, ex.rangeFact(x, gt))
+						}
+						continue
+					}
+				}
 				lv[prm] = Scalar{Sym(nm, IntSort)}
 				lt[prm] = types.Typ[types.UntypedInt]
-				syms = append(syms, nm)
 			}
 			lenv := &SpecEnv{ex: ex, st: entry, vars: lv, vtypes: lt, pkg: fn.Pkg.Pkg, contract: c}
 			body := lenv.termBool(sf.Expr)
@@ -285,9 +323,9 @@ func (p *Program) VerifyFunc(c *Contract) (res *FuncResult) {
 			for _, fnn := range fnames {
 				q.Funs = append(q.Funs, ex.Funs[fnn])
 			}
-			q.Asserts = []*Term{Not(body)}
+			q.Asserts = append(append([]*Term{}, hyps...), Not(body))
 			lo := &Obligation{Func: c.Key, Short: "lemma." + n, Name: c.Key + "#lemma." + n, Expect: "unsat", Query: q,
-				Mode: "int", Inputs: syms, Clause: "lemma " + n + "(" + strings.Join(sf.Params, ", ") + ") = " + sf.Src, Contract: c,
+				Mode: modeName(c), Inputs: syms, Clause: "lemma " + n + "(" + strings.Join(sf.Params, ", ") + ") = " + sf.Src, Contract: c,
 				Order: []string{"cvc5", "z3-new", "z3"}}
 			res.Obligations = append(res.Obligations, lo)
 		}
@@ -488,10 +526,22 @@ func (p *Program) VerifyFunc(c *Contract) (res *FuncResult) {
 		mk("frame.big", nil, "unsat", "big.Int writes only to fresh values or modifies targets", Or(alts...))
 	}
 	// frame of the ghost meter: a function that meters memory must say so (its callers rely on it)
-	if !declaresGhost(c, "metered") {
+	gnames := []string{"metered"}
+	{
+		var extra []string
+		for n := range p.CS.GhostVars {
+			extra = append(extra, n)
+		}
+		sort.Strings(extra)
+		gnames = append(gnames, extra...)
+	}
+	for _, gn := range gnames {
+		if declaresGhost(c, gn) {
+			continue
+		}
 		var alts []*Term
 		for _, e := range normal {
-			g := e.St.Ghost["metered"]
+			g := e.St.Ghost[gn]
 			if g != nil && !(g.IsConst() && g.Val.Sign() == 0) {
 				zero := IntC(0)
 				if g.S.K == SBV {
@@ -501,7 +551,11 @@ func (p *Program) VerifyFunc(c *Contract) (res *FuncResult) {
 			}
 		}
 		if len(alts) > 0 {
-			mk("frame.ghost.metered", nil, "unsat", "memory is metered only by functions that declare modifies ghost(\"metered\")", Or(alts...))
+			clause := "ghost state " + gn + " is changed only by functions that declare modifies ghost(\"" + gn + "\")"
+			if gn == "metered" {
+				clause = "memory is metered only by functions that declare modifies ghost(\"metered\")"
+			}
+			mk("frame.ghost."+gn, nil, "unsat", clause, Or(alts...))
 		}
 	}
 	return
@@ -556,6 +610,14 @@ func (ex *Exec) initGhosts(st *State, c *Contract) {
 		st.Ghost["metered"] = BVC(big.NewInt(0), 64)
 	} else {
 		st.Ghost["metered"] = IntC(0)
+	}
+	for n, tn := range ex.P.CS.GhostVars {
+		if tn == "mathint" {
+			st.Ghost[n] = IntC(0) // a mathematical integer in every encoding (counters that must not wrap)
+			continue
+		}
+		t := basicTypeByName(tn)
+		st.Ghost[n] = ex.intConst(big.NewInt(0), t)
 	}
 	if g, ok := c.Options["ghost"]; ok {
 		for _, n := range strings.Fields(strings.ReplaceAll(g, ",", " ")) {
